@@ -78,7 +78,8 @@ where
 
         let count = intersection.size.width * intersection.size.height;
 
-        let mut colors = colors.into_iter();
+        // the stream ends at its first None, also when that None is hit while skipping
+        let mut colors = colors.into_iter().fuse();
 
         if &intersection == area {
             // Draw the original iterator if no edge overlaps the framebuffer
